@@ -47,7 +47,14 @@ def gen_cases(tier, seed):
     cat = [c for c in CATALOGUE if c['name'] not in ('s',)] + \
         [dict(name='t1cc', t='amp', nu=2, nl=2, rule='amp', w=1),
          dict(name='t3', t='amp', nu=1, nl=1, rule='amp', w=1),
-         dict(name='p2', t='anti', nu=1, nl=1, rule='any', w=1)]
+         dict(name='p2', t='anti', nu=1, nl=1, rule='any', w=1),
+         # amplitude vectors of the other ADC variants (block number in the name)
+         dict(name='X', t='amp', nu=1, nl=2, rule='amp', w=1),
+         dict(name='Y', t='amp', nu=0, nl=2, rule='amp', w=1),
+         dict(name='Y', t='amp', nu=2, nl=0, rule='amp', w=1),
+         dict(name='X', t='amp', nu=0, nl=1, rule='amp', w=1),
+         dict(name='Y', t='amp', nu=1, nl=3, rule='amp', w=1),
+         dict(name='X', t='amp', nu=2, nl=1, rule='amp', w=1)]
     saved = list(G.PREFS)
     G.PREFS[:] = PREFS
     try:
